@@ -373,6 +373,14 @@ TBulk ==
          (Ev.werr = "" /\ Ev.pan = "") => (Ev.rerr = "" /\ Ev.nread = Ev.n /\ Ev.rowsrep = Ev.n /\ Ev.firstbad = -1))
   /\ UNCHANGED <<caseId, schema, cols, maxPage, codecN, recs, batches, snk, wc, faultK, rowsTab, clean>>
 
+\* every strict prefix of a large file (too many for one event each), summarised by the driver
+TTruncSweep ==
+  /\ More /\ Ev.ev = "TruncSweep"
+  /\ l' = l + 1
+  /\ Chk("C11", "NoPanic", Ev.npanicked = 0)
+  /\ Chk("C11", "TruncationRejected", Ev.naccepted = 0)
+  /\ UNCHANGED <<caseId, schema, cols, maxPage, codecN, recs, batches, snk, wc, faultK, rowsTab, clean>>
+
 TRows ==
   /\ More /\ Ev.ev = "Rows"
   /\ l' = l + 1
@@ -402,7 +410,7 @@ TOther ==
 
 TDone == /\ l = Len(Trace) + 1 /\ PrintT(<<"TRACEDONE", Len(Trace)>>) /\ UNCHANGED vars
 
-Next == TReset \/ TNew \/ TAdd \/ TWrite \/ TClose \/ TRead \/ TRows \/ TForeign \/ TExpect \/ TRegen \/ TPair \/ TBulk \/ TIntro \/ TCli \/ TSched \/ TStress \/ TSinkRun \/ TSinkCall \/ TOther \/ TDone
+Next == TReset \/ TNew \/ TAdd \/ TWrite \/ TClose \/ TRead \/ TRows \/ TForeign \/ TExpect \/ TRegen \/ TPair \/ TBulk \/ TTruncSweep \/ TIntro \/ TCli \/ TSched \/ TStress \/ TSinkRun \/ TSinkCall \/ TOther \/ TDone
 Spec == Init /\ [][Next]_vars
 
 \* every line was consumed: one state per line plus the initial state
